@@ -49,6 +49,8 @@ def run(ctx):
     ctx.do(rule_composite_registrations, rule_id="C17.registries-unchanged-on-failure")
     from .hidden_state import rule_no_hidden_state
     ctx.do(rule_no_hidden_state, "C17.history-independence")
+    from .pitfalls import rule_loops_not_cut_short
+    ctx.do(rule_loops_not_cut_short, "C17.loops-complete")
 
 
 def rule_wrapper(ctx):
